@@ -138,7 +138,7 @@ def k_shortcut(ctx):
 
 
 # ---- K3: templates with temporal sub directories (neighbourhood = t +- one directory period) ----------
-@harness("C16.tree", cases=lambda tier: ["y/m/d", "y/doy", "y", "name/y/doy"] + (["ym/d", "y2/m/d/h", "y/lit/m"] if tier == "thorough" else []),
+@harness("C16.tree", cases=lambda tier: ["y/m/d", "y/doy", "y", "name/y/doy", "y/lit/m"] + (["ym/d", "y2/m/d/h"] if tier == "thorough" else []),
          expect=lambda c: ["returns-a-candidate-file", "covering-file-whenever-one-exists", "nearest-otherwise"])
 def k_tree(ctx):
     layout = ctx.case
